@@ -40,6 +40,8 @@ def show(a):
 
 
 def lin_py(e, expand=lambda e: None):
+    if isinstance(e, ast.Call) and _const_of(e) is not None:        # sym.Literal(1) / IntLiteral(1) inside operator arithmetic
+        return {1: _const_of(e)} if _const_of(e) else {}
     if isinstance(e, ast.Constant) and isinstance(e.value, int) and not isinstance(e.value, bool):
         return {1: e.value} if e.value else {}
     if isinstance(e, ast.BinOp) and isinstance(e.op, (ast.Add, ast.Sub)):
